@@ -17,16 +17,16 @@ func init() {
 	engine.Register(&engine.Check{
 		ID:    "C02",
 		Title: "No script can crash or wedge the embedding Go program",
-		Rule: "surface-*: every function found by BFS over the real object graph from the global object (own properties incl. non-enumerable, getters/setters, [[Prototype]]) x 31 receiver kinds x argument tuples over 22 kinds " +
+		Rule: "surface-*: every function found by BFS over the real object graph from the global object (own properties incl. non-enumerable, getters/setters, [[Prototype]]) x 43 receiver kinds (incl. []uint16-backed strings, the nine prototype objects, a bridged map with a named key type) x argument tuples over 26 kinds " +
 			"(arity 0 and 1 in full; arity 2 as a full product - on an 8-kind subset in the quick tier; arity 3-4 with at most one deviation from all-undefined, thorough tier), as call and as new; " +
 			"every call on a fresh Copy() of a template runtime, bridged Go values created freshly; non-trivial = the call returned a value (did not throw). " +
-			"bridge: 23 script-level operations x 7 property names x 4 bridged Go kinds. " +
-			"history: 13 subjects (object shapes incl. bridged) x property names x ALL sequences of <= 2 (thorough 3) steps over 27 steps (complete / partial / contradictory descriptors, explicit-undefined get or set, assignments, delete, freeze/seal/preventExtensions), " +
-			"each followed by 17 script observers (getOwnPropertyDescriptor with every field touched, keys, for-in, JSON, read/write/redefine), 4 Go observers (Export, Object accessors, Set, Context) and Otto.Copy() plus 7 observers on the copy. " +
+			"bridge: 23 script-level operations x 7 property names x 5 bridged Go kinds. " +
+			"history: 14 subjects (object shapes incl. bridged) x property names x ALL sequences of 0..2 (thorough 3) steps over 27 steps (complete / partial / contradictory descriptors, explicit-undefined get or set, assignments, delete, freeze/seal/preventExtensions), " +
+			"plus the arguments-object matrix (#formals, #actuals) in {0..3}^2 with duplicate parameter names and a parameter named arguments, every index 0..max(formals, actuals), histories of 0..1 (thorough 2) steps; each followed by 19 script observers (getOwnPropertyDescriptor with every field touched, keys, for-in, JSON, read/write/redefine), 4 Go observers (Export, Object accessors, Set, Context) and Otto.Copy() plus 7 observers on the copy. " +
 			"structured: full products of argument mini-languages - replace templates x regexps with participating / non-participating / zero captures, split separators x limits, lastIndex values, RegExp sources from 40 pattern atoms (length <= 2, thorough 3) x flags, " +
-			"JSON texts from 25 tokens (length <= 3, thorough 4) and stringify value x replacer x gap, Date strings from 30 pieces, Function constructor parameter lists x bodies, digit counts, array lengths, array-likes with odd lengths x 28 Array methods, sort comparators, apply/bind with array-likes, percent escapes. " +
+			"JSON texts from 25 tokens (length <= 3, thorough 4) and stringify value x replacer x gap, Date strings from 30 pieces, Function constructor parameter lists x bodies, digit counts, array lengths, array-likes with odd lengths x 28 Array methods, sort comparators, apply/bind with array-likes, percent escapes, and []uint16-backed strings in every operator / conversion position. " +
 			"bytes: all byte strings of length <= 2 and length 3 over a 40-byte alphabet; tokens: all strings of <= 4 (thorough 5) tokens over a 22-token alphabet; each through Run, Compile+Run, Eval, Object, Call(nil) and Call(this); non-trivial = the text got past the parser. " +
-			"recursion: stack depth limit L in {1..16,100,1000,10000} x depth d in {0..L+2, unbounded} x 13 call forms (+2 forms that recurse inside JSON.stringify); non-trivial = the limit was hit. " +
+			"recursion: stack depth limit L in {1..16,100,1000,10000} x depth d in {0..L+2, unbounded} x 24 call / re-entry forms (direct and indirect eval of self-evaluating code, Function-constructor bodies, valueOf / toString / toJSON / getter / setter re-entry, forEach / map / reduce / sort / replace callbacks, ...) + 2 forms that recurse inside JSON.stringify; non-trivial = the limit was hit. " +
 			"goapi-value: 107 Value/Object accessor variants x 46 value kinds; goapi-otto: Value.Call and Otto.Get/Set/Call/Eval/Context/ToValue/MakeError/Copy around every arity-0 surface call. " +
 			"Every case runs in a child process of the worker; a dead child (fatal error, watchdog) is a mismatch of the announced case and the shard continues after it.",
 		Families: []engine.Family{
